@@ -4,7 +4,38 @@ harness suites tie them to /repo, what a difference means)."""
 HOOK_COMMITS = ["6ca0a80"]
 NOT_YET = {}
 
+def _c01_weight(line):
+    t = line.split(" ")
+    if t[0] == "blk":
+        return int(t[2]) - int(t[1]) + 1
+    return 1
+
+
 PROPS = {
+    "C01": {
+        "lean_modules": ["TemporalModel.Props.C01"],
+        "suites": ["c01"],
+        "weight": _c01_weight,
+        "level_text": "Proof: the Gregorian day line is characterised by C01_anchor + C01_succ (all years, unbounded); C01_toDays / "
+                      "C01_fromDays / C01_inverse prove the two coded Neri-Schneider kernels compute it and are mutually inverse on "
+                      "|year| <= 10^6, |day| <= 3*10^8 (a window strictly containing Temporal's range); C01_order gives order "
+                      "preservation and injectivity; C01_balance, C01_days_in_month, C01_limits cover BalanceISODate, the leap-year "
+                      "chain and the limits. The tie is an exhaustive block-checksum walk of every day of the range (thorough; quick: "
+                      "~5.7e6 days around 1970, both limits and random blocks) comparing kernel outputs and all ISO getters of "
+                      "PlainDate with the model, plus day arithmetic and epoch-nanosecond conversions.",
+        "level_note": "Trusted: Lean kernel (+propext, Classical.choice, Quot.sound; `decide +kernel` for the 366-row month table), the "
+                      "hand model of neri_schneider.rs/utils.rs/iso.rs (u32/u64 intermediates modelled as integers; exactness inside the "
+                      "window is part of the theorems' hypotheses), Spec/Gregorian.lean as the reading of the Gregorian/ISO-8601 week "
+                      "rules, harness + diff. icu_calendar's ISO arithmetic is compared as a black box.",
+        "why_difference_is_violation":
+            "C01_* theorems prove the model kernels are the unique order-preserving bijection between Gregorian dates and days, and "
+            "the model getters are the Gregorian/ISO-8601 rule; the implementation disagrees with that rule on this input "
+            "(for `blk lo hi` lines: somewhere inside the block; the replay op re-runs the block).",
+        "exhaustive_thorough": True,
+        "rule": "blk lines are FNV checksums over 65536 consecutive days each (per day: y,m,d, day number back, day-of-week, "
+                "day-of-year, ISO week, year-of-week, days-in-month, days-in-year, leap flag); evaluations counts days inside blocks "
+                "plus single ops; distinct = distinct op line with outcome ok",
+    },
     "C07": {
         "level_text": "Proof: C07_round_eq_spec (Lean 4, all integers x, all increments > 0 odd or even, all nine modes) shows the "
                       "coded integer rounder equals RoundNumberToIncrement; corollaries give neighbour/bracket/tie/negation facts. "
